@@ -67,6 +67,8 @@ func exactCmpIF(i int64, f float64) int          { return 0 }
 func errIsCtx(err error) bool                    { return false }
 func sameSlice[T any](a, b []T) bool             { return len(a) == len(b) }
 func sameVal[T any](a, b T) bool                 { return true }
+func sameBase[T any](a, b []T) bool              { return true }
+func freshBase[T any](a []T) bool                { return true }
 func uninterp[T any](name string, args ...any) T { var z T; return z }
 func outCount() int                              { return 0 }
 func outFirst() any                              { return nil }
@@ -142,6 +144,33 @@ func outLast() any                               { return nil }
 // ---------------------------------------------------------------------------
 // exec.go: entry points, executor construction, error helpers
 
+// the options write the one Executor field they are named after, and nothing
+// the caller handed in (C05, C19: the variables map is never modified)
+
+//@ func WithVars$1
+//@ props C05 C19
+//@ requires e != nil
+//@ modifies e.vars
+
+//@ func WithTZ$1
+//@ props C17 C19
+//@ requires e != nil
+//@ modifies e.useTZ
+//@ ensures [C17] on: e.useTZ
+
+//@ func WithSilent$1
+//@ props C08 C19
+//@ requires e != nil
+//@ modifies e.verbose
+//@ ensures [C08] off: !e.verbose
+
+//@ func (*valueList).append
+//@ props C05 C09 C19
+//@ requires vl != nil
+//@ modifies vl.list
+//@ ensures [C09] appended: len(vl.list) == old(len(vl.list)) + 1 && vl.list[len(vl.list)-1] == val
+//@ ensures [C05 C19] list-owned: sameBase(vl.list, old(vl.list)) || freshBase(vl.list)
+
 //@ func newExec
 //@ props C05 C07 C19
 //@ ensures fresh: r0 != nil && fresh(r0)
@@ -181,7 +210,7 @@ func outLast() any                               { return nil }
 //@ props C01 C05 C06 C08
 //@ requires path != nil
 //@ ensures [C06] one-run: ncalls(exec.execute) == 1 && callarg[any](exec.execute, "value") == value
-//@ ensures [C05 C06] err: callret[error](exec.execute, 1) != nil ==> r1 == callret[error](exec.execute, 1) && r0 == nil
+//@ ensures [C05 C06 C08 C20] err: callret[error](exec.execute, 1) != nil ==> r1 == callret[error](exec.execute, 1) && r0 == nil
 //@ ensures [C06] ok: callret[error](exec.execute, 1) == nil ==> r1 == nil && sameSlice(r0, callret[*valueList](exec.execute, 0).list)
 //@ ensures [C05] class: r1 != nil ==> errIs(r1, ErrExecution) || errIs(r1, ErrInvalid)
 
@@ -205,7 +234,7 @@ func outLast() any                               { return nil }
 //@ props C05 C06 C08 C11
 //@ requires path != nil
 //@ ensures [C06] one-run: ncalls(exec.execute) == 1 && callarg[any](exec.execute, "value") == value
-//@ ensures [C05 C06] err: callret[error](exec.execute, 1) != nil ==> r1 == callret[error](exec.execute, 1) && !r0
+//@ ensures [C05 C06 C08 C20] err: callret[error](exec.execute, 1) != nil ==> r1 == callret[error](exec.execute, 1) && !r0
 //@ ensures [C06 C11] bool: callret[error](exec.execute, 1) == nil && len(callret[*valueList](exec.execute, 0).list) == 1 && is[bool](callret[*valueList](exec.execute, 0).list[0]) ==> r1 == nil && r0 == as[bool](callret[*valueList](exec.execute, 0).list[0])
 //@ ensures [C06 C11] null: callret[error](exec.execute, 1) == nil && len(callret[*valueList](exec.execute, 0).list) == 1 && callret[*valueList](exec.execute, 0).list[0] == nil ==> r1 == NULL && !r0
 //@ ensures [C06 C08] other: callret[error](exec.execute, 1) == nil && !(len(callret[*valueList](exec.execute, 0).list) == 1 && (is[bool](callret[*valueList](exec.execute, 0).list[0]) || callret[*valueList](exec.execute, 0).list[0] == nil)) ==> !r0 && r1 != nil && (r1 == NULL || errIs(r1, ErrVerbose))
@@ -358,7 +387,7 @@ func outLast() any                               { return nil }
 //@ props C01 C07 C15
 //@ loop 1 invariant [C07 C20 C05] no-pending: pendingErr() == nil && !pendingFailed() && err == nil && res != statusFailed
 //@ loop 1 invariant status: res == statusOK || res == statusNotFound
-//@ loop 1 invariant [C06] exists-mode-undecided: found == nil ==> res == statusNotFound
+//@ loop 1 invariant [C06 C15] exists-mode-undecided: found == nil ==> res == statusNotFound
 //@ loop 1 invariant [C09 C07] ise-restore: implies(deferActive("ignoreStructuralErrors"), deferObj[*Executor]("ignoreStructuralErrors") == exec && deferVal[bool]("ignoreStructuralErrors") == old(exec.ignoreStructuralErrors)) && implies(!deferActive("ignoreStructuralErrors"), exec.ignoreStructuralErrors == old(exec.ignoreStructuralErrors))
 //@ loop 1 invariant [C15] visit-each: node != nil && level >= first ==> ncalls(exec.executeItemOptUnwrapTarget) == loopEntry(ncalls(exec.executeItemOptUnwrapTarget)) + rangeindex + 1
 //@ loop 1 invariant [C15] descend-each: level < last ==> ncalls(exec.executeAnyItem) == loopEntry(ncalls(exec.executeAnyItem)) + rangeindex + 1
@@ -375,7 +404,7 @@ func outLast() any                               { return nil }
 //@ ensures [C15] depth-zero: node.First() == 0 ==> ncalls(exec.executeNextItem) == 1 && callarg[any](exec.executeNextItem, "value") == value && callarg[*valueList](exec.executeNextItem, "found") == found
 //@ ensures [C15] no-depth-zero: node.First() != 0 ==> ncalls(exec.executeNextItem) == 0
 //@ atcall executeNextItem assert [C07] forced-lax: exec.ignoreStructuralErrors
-//@ atcall executeAnyItem assert [C15] from-level-1: arg_level == 1 && arg_first == node.First() && arg_last == node.Last() && arg_ignoreStructuralErrors && arg_found == found && arg_node == node.Next()
+//@ atcall executeAnyItem assert [C15 C07] from-level-1: arg_level == 1 && arg_first == node.First() && arg_last == node.Last() && arg_ignoreStructuralErrors && arg_found == found && arg_node == node.Next()
 //@ ensures [C15] scalar: !is[[]any](value) && !is[map[string]any](value) ==> ncalls(exec.executeAnyItem) == 0
 
 //@ func (*Executor).execBinaryNode
@@ -523,7 +552,7 @@ func isUnknownSpec(a predOutcome) predOutcome {
 //@ ensures [C11] operands: (node.Operator() == ast.BinaryAnd || node.Operator() == ast.BinaryOr) ==> ncalls(exec.executeBoolItem) >= 1 && ncalls(exec.executeBoolItem) <= 2 && ncalls(exec.executePredicate) == 0
 //@ atcall executeBoolItem assert [C11 C09] same-item: arg_value == value && !arg_canHaveNext && (arg_node == node.Left() || arg_node == node.Right())
 //@ ensures [C12] comparison: node.Operator() >= ast.BinaryEqual && node.Operator() <= ast.BinaryGreaterOrEqual ==> ncalls(exec.executePredicate) == 1 && callarg[ast.Node](exec.executePredicate, "left") == node.Left() && callarg[ast.Node](exec.executePredicate, "right") == node.Right() && callarg[any](exec.executePredicate, "value") == value && callarg[bool](exec.executePredicate, "unwrapRightArg") && r0 == callret[predOutcome](exec.executePredicate, 0) && r1 == callret[error](exec.executePredicate, 1)
-//@ ensures [C12] starts-with: node.Operator() == ast.BinaryStartsWith ==> ncalls(exec.executePredicate) == 1 && !callarg[bool](exec.executePredicate, "unwrapRightArg") && callarg[ast.Node](exec.executePredicate, "left") == node.Left() && callarg[ast.Node](exec.executePredicate, "right") == node.Right() && r0 == callret[predOutcome](exec.executePredicate, 0) && r1 == callret[error](exec.executePredicate, 1)
+//@ ensures [C12 C01] starts-with: node.Operator() == ast.BinaryStartsWith ==> ncalls(exec.executePredicate) == 1 && !callarg[bool](exec.executePredicate, "unwrapRightArg") && callarg[ast.Node](exec.executePredicate, "left") == node.Left() && callarg[ast.Node](exec.executePredicate, "right") == node.Right() && r0 == callret[predOutcome](exec.executePredicate, 0) && r1 == callret[error](exec.executePredicate, 1)
 
 //@ func (*Executor).executeUnaryBoolItem
 //@ props C11
@@ -533,10 +562,12 @@ func isUnknownSpec(a predOutcome) predOutcome {
 //@ ensures [C11 C20 C08] is-unknown-keeps-hard-error: node.Operator() == ast.UnaryIsUnknown && callret[error](exec.executeBoolItem, 1) != nil ==> r1 == callret[error](exec.executeBoolItem, 1)
 //@ ensures [C11] is-unknown-two-valued: node.Operator() == ast.UnaryIsUnknown && r1 == nil ==> r0 != predUnknown
 //@ ensures [C11 C06] exists-strict: node.Operator() == ast.UnaryExists && exec.path.IsStrict() ==> ncalls(exec.executeItemOptUnwrapResultSilent) == 1 && callarg[*valueList](exec.executeItemOptUnwrapResultSilent, "found") != nil && fresh(callarg[*valueList](exec.executeItemOptUnwrapResultSilent, "found")) && (callret[resultStatus](exec.executeItemOptUnwrapResultSilent, 0) == statusFailed ==> r0 == predUnknown) && (callret[resultStatus](exec.executeItemOptUnwrapResultSilent, 0) != statusFailed ==> r1 == nil && r0 == ite(len(callarg[*valueList](exec.executeItemOptUnwrapResultSilent, "found").list) == 0, predFalse, predTrue))
-//@ ensures [C11 C06] exists-lax: node.Operator() == ast.UnaryExists && !exec.path.IsStrict() ==> ncalls(exec.executeItemOptUnwrapResultSilent) == 1 && callarg[*valueList](exec.executeItemOptUnwrapResultSilent, "found") == nil && r0 == ite(callret[resultStatus](exec.executeItemOptUnwrapResultSilent, 0) == statusFailed, predUnknown, ite(callret[resultStatus](exec.executeItemOptUnwrapResultSilent, 0) == statusOK, predTrue, predFalse))
+//@ ensures [C11 C06 C10] exists-lax: node.Operator() == ast.UnaryExists && !exec.path.IsStrict() ==> ncalls(exec.executeItemOptUnwrapResultSilent) == 1 && callarg[*valueList](exec.executeItemOptUnwrapResultSilent, "found") == nil && r0 == ite(callret[resultStatus](exec.executeItemOptUnwrapResultSilent, 0) == statusFailed, predUnknown, ite(callret[resultStatus](exec.executeItemOptUnwrapResultSilent, 0) == statusOK, predTrue, predFalse))
 //@ ensures [C11] exists-operand: node.Operator() == ast.UnaryExists ==> callarg[any](exec.executeItemOptUnwrapResultSilent, "value") == value && callarg[ast.Node](exec.executeItemOptUnwrapResultSilent, "node") == node.Operand() && !callarg[bool](exec.executeItemOptUnwrapResultSilent, "unwrap")
 
 //@ func (*Executor).executePredicate
+//@ alsoprops E6-error-propagated C17 C10 C12
+//@ alsoprops E6-failure-propagated C10 C12
 //@ props C12 C10
 //@ requires left != nil
 //@ loop 1 invariant [C20 C05] no-pending: pendingErr() == nil && !pendingFailed()
@@ -600,14 +631,14 @@ func isUnknownSpec(a predOutcome) predOutcome {
 
 //@ func (*Executor).execAnyKey
 //@ props C07 C15
-//@ ensures [C15] object: is[map[string]any](value) ==> ncalls(exec.executeAnyItem) == 1 && callarg[uint32](exec.executeAnyItem, "level") == 1 && callarg[uint32](exec.executeAnyItem, "first") == 1 && callarg[uint32](exec.executeAnyItem, "last") == 1 && !callarg[bool](exec.executeAnyItem, "ignoreStructuralErrors") && len(callarg[[]any](exec.executeAnyItem, "value")) == len(as[map[string]any](value)) && callarg[*valueList](exec.executeAnyItem, "found") == found && callarg[ast.Node](exec.executeAnyItem, "node") == node.Next() && r0 == callret[resultStatus](exec.executeAnyItem, 0) && r1 == callret[error](exec.executeAnyItem, 1)
+//@ ensures [C15 C07 C09] object: is[map[string]any](value) ==> ncalls(exec.executeAnyItem) == 1 && callarg[uint32](exec.executeAnyItem, "level") == 1 && callarg[uint32](exec.executeAnyItem, "first") == 1 && callarg[uint32](exec.executeAnyItem, "last") == 1 && !callarg[bool](exec.executeAnyItem, "ignoreStructuralErrors") && callarg[bool](exec.executeAnyItem, "unwrapNext") == exec.path.IsLax() && len(callarg[[]any](exec.executeAnyItem, "value")) == len(as[map[string]any](value)) && callarg[*valueList](exec.executeAnyItem, "found") == found && callarg[ast.Node](exec.executeAnyItem, "node") == node.Next() && r0 == callret[resultStatus](exec.executeAnyItem, 0) && r1 == callret[error](exec.executeAnyItem, 1)
 //@ ensures [C07] unwrap-array: is[[]any](value) && unwrap ==> ncalls(exec.executeItemUnwrapTargetArray) == 1 && callarg[any](exec.executeItemUnwrapTargetArray, "value") == value && r0 == callret[resultStatus](exec.executeItemUnwrapTargetArray, 0) && r1 == callret[error](exec.executeItemUnwrapTargetArray, 1)
 //@ ensures [C07] mismatch-lax: !is[map[string]any](value) && !(is[[]any](value) && unwrap) && exec.ignoreStructuralErrors ==> r0 == statusNotFound && r1 == nil
 //@ ensures [C07] mismatch-strict: !is[map[string]any](value) && !(is[[]any](value) && unwrap) && !exec.ignoreStructuralErrors ==> r0 == statusFailed && (r1 == nil || errIs(r1, ErrVerbose)) && (exec.verbose ==> r1 != nil)
 
 //@ func (*Executor).execAnyArray
 //@ props C07 C15
-//@ ensures [C15] array: is[[]any](value) ==> ncalls(exec.executeAnyItem) == 1 && callarg[uint32](exec.executeAnyItem, "level") == 1 && callarg[uint32](exec.executeAnyItem, "first") == 1 && callarg[uint32](exec.executeAnyItem, "last") == 1 && sameSlice(callarg[[]any](exec.executeAnyItem, "value"), as[[]any](value)) && callarg[*valueList](exec.executeAnyItem, "found") == found && callarg[ast.Node](exec.executeAnyItem, "node") == node.Next() && r0 == callret[resultStatus](exec.executeAnyItem, 0) && r1 == callret[error](exec.executeAnyItem, 1)
+//@ ensures [C15 C07 C09] array: is[[]any](value) ==> ncalls(exec.executeAnyItem) == 1 && callarg[bool](exec.executeAnyItem, "unwrapNext") == exec.path.IsLax() && !callarg[bool](exec.executeAnyItem, "ignoreStructuralErrors") && callarg[uint32](exec.executeAnyItem, "level") == 1 && callarg[uint32](exec.executeAnyItem, "first") == 1 && callarg[uint32](exec.executeAnyItem, "last") == 1 && sameSlice(callarg[[]any](exec.executeAnyItem, "value"), as[[]any](value)) && callarg[*valueList](exec.executeAnyItem, "found") == found && callarg[ast.Node](exec.executeAnyItem, "node") == node.Next() && r0 == callret[resultStatus](exec.executeAnyItem, 0) && r1 == callret[error](exec.executeAnyItem, 1)
 //@ ensures [C07] autowrap: !is[[]any](value) && exec.path.IsLax() ==> ncalls(exec.executeNextItem) == 1 && callarg[any](exec.executeNextItem, "value") == value && callarg[*valueList](exec.executeNextItem, "found") == found && r0 == callret[resultStatus](exec.executeNextItem, 0) && r1 == callret[error](exec.executeNextItem, 1)
 //@ ensures [C07] strict-error: !is[[]any](value) && !exec.path.IsLax() && !exec.ignoreStructuralErrors ==> r0 == statusFailed && (r1 == nil || errIs(r1, ErrVerbose)) && (exec.verbose ==> r1 != nil)
 //@ ensures [C07] strict-below-anypath: !is[[]any](value) && !exec.path.IsLax() && exec.ignoreStructuralErrors ==> r0 == statusNotFound && r1 == nil
@@ -713,6 +744,7 @@ func isUnknownSpec(a predOutcome) predOutcome {
 //@ atcall executeNextItem assert [C13] numeric-only: arg_found == found && (is[int64](v) || is[float64](v) || is[json.Number](v))
 //@ atcall executeNextItem assert [C13] int-negated: is[int64](v) ==> arg_value == any(dynret[int64](intCallback, 0, as[int64](v)))
 //@ atcall executeNextItem assert [C13] float-negated: is[float64](v) ==> arg_value == any(dynret[float64](floatCallback, 0, as[float64](v)))
+//@ ensures [C06 C13] exists-ok-comes-from-continuation: found == nil && node.Next() != nil && r0 == statusOK ==> ncalls(exec.executeNextItem) >= 1 && callret[resultStatus](exec.executeNextItem, 0) == statusOK
 
 // ---------------------------------------------------------------------------
 // compare.go: one order per type
@@ -782,6 +814,8 @@ func isUnknownSpec(a predOutcome) predOutcome {
 //@ ensures [C05] never-invalid: errIs(r1, ErrInvalid) ==> pendingErr() == r1
 
 //@ func (*Executor).execMethodType
+//@ alsoprops E3 C16
+//@ alsoprops E2 C16
 //@ props C16
 //@ ensures [C16] object: is[map[string]any](value) ==> callarg[any](exec.executeNextItem, "value") == any("object")
 //@ ensures [C16] array: is[[]any](value) ==> callarg[any](exec.executeNextItem, "value") == any("array")
@@ -797,12 +831,16 @@ func isUnknownSpec(a predOutcome) predOutcome {
 //@ ensures [C16] one-item: !errIs(r1, ErrInvalid) ==> ncalls(exec.executeNextItem) == 1 && callarg[*valueList](exec.executeNextItem, "found") == found && r0 == callret[resultStatus](exec.executeNextItem, 0) && r1 == callret[error](exec.executeNextItem, 1)
 
 //@ func (*Executor).execMethodSize
+//@ alsoprops E3 C16
+//@ alsoprops E2 C16
 //@ props C16
 //@ ensures [C16] array: is[[]any](value) ==> ncalls(exec.executeNextItem) == 1 && callarg[any](exec.executeNextItem, "value") == any(int64(len(as[[]any](value))))
 //@ ensures [C16] lax-one: !is[[]any](value) && (exec.path.IsLax() || exec.ignoreStructuralErrors) ==> ncalls(exec.executeNextItem) == 1 && callarg[any](exec.executeNextItem, "value") == any(int64(1))
 //@ ensures [C16] strict-error: !is[[]any](value) && !exec.path.IsLax() && !exec.ignoreStructuralErrors ==> ncalls(exec.executeNextItem) == 0 && r0 == statusFailed && (r1 == nil || errIs(r1, ErrVerbose))
 
 //@ func (*Executor).execMethodDouble
+//@ alsoprops E3 C16
+//@ alsoprops E2 C16
 //@ props C16 C05
 //@ ensures [C16 C05] finite: ncalls(exec.executeNextItem) == 1 ==> is[float64](callarg[any](exec.executeNextItem, "value")) && !isNaN(as[float64](callarg[any](exec.executeNextItem, "value"))) && !isInf(as[float64](callarg[any](exec.executeNextItem, "value")))
 //@ ensures [C16] float-identity: is[float64](value) && ncalls(exec.executeNextItem) == 1 ==> callarg[any](exec.executeNextItem, "value") == value
@@ -811,6 +849,8 @@ func isUnknownSpec(a predOutcome) predOutcome {
 //@ ensures [C16] array-strict: is[[]any](value) && !unwrap ==> r0 == statusFailed && ncalls(exec.executeNextItem) == 0
 
 //@ func (*Executor).execMethodInteger
+//@ alsoprops E3 C16
+//@ alsoprops E2 C16
 //@ props C16
 //@ mode bv
 //@ ensures [C16] in-int32-range: ncalls(exec.executeNextItem) == 1 ==> is[int64](callarg[any](exec.executeNextItem, "value")) && as[int64](callarg[any](exec.executeNextItem, "value")) >= -2147483648 && as[int64](callarg[any](exec.executeNextItem, "value")) <= 2147483647
@@ -821,6 +861,8 @@ func isUnknownSpec(a predOutcome) predOutcome {
 //@ ensures [C16] domain: !(is[[]any](value) || is[int64](value) || is[float64](value) || is[json.Number](value) || is[string](value)) ==> r0 == statusFailed && ncalls(exec.executeNextItem) == 0
 
 //@ func (*Executor).execMethodBigInt
+//@ alsoprops E3 C16
+//@ alsoprops E2 C16
 //@ props C16
 //@ mode bv
 //@ ensures [C16] int-identity: is[int64](value) ==> ncalls(exec.executeNextItem) == 1 && callarg[any](exec.executeNextItem, "value") == value
@@ -830,6 +872,8 @@ func isUnknownSpec(a predOutcome) predOutcome {
 //@ ensures [C16] domain: !(is[[]any](value) || is[int64](value) || is[float64](value) || is[json.Number](value) || is[string](value)) ==> r0 == statusFailed && ncalls(exec.executeNextItem) == 0
 
 //@ func (*Executor).execMethodBoolean
+//@ alsoprops E3 C16
+//@ alsoprops E2 C16
 //@ props C16
 //@ ensures [C16] bool-identity: is[bool](value) ==> ncalls(exec.executeNextItem) == 1 && callarg[any](exec.executeNextItem, "value") == value
 //@ ensures [C16] int: is[int64](value) ==> ncalls(exec.executeNextItem) == 1 && callarg[any](exec.executeNextItem, "value") == any(as[int64](value) != 0)
@@ -848,13 +892,18 @@ func isUnknownSpec(a predOutcome) predOutcome {
 //@ ensures [C16] other-first-byte: len(val) > 0 && !(val[0] == 't' || val[0] == 'T' || val[0] == 'f' || val[0] == 'F' || val[0] == 'y' || val[0] == 'Y' || val[0] == 'n' || val[0] == 'N' || val[0] == 'o' || val[0] == 'O' || val[0] == '1' || val[0] == '0') ==> r1 != nil
 
 //@ func (*Executor).execMethodString
+//@ alsoprops E3 C16
+//@ alsoprops E2 C16
 //@ props C16
 //@ ensures [C16] string-identity: is[string](value) ==> ncalls(exec.executeNextItem) == 1 && callarg[any](exec.executeNextItem, "value") == value
 //@ ensures [C16] bool: is[bool](value) ==> ncalls(exec.executeNextItem) == 1 && callarg[any](exec.executeNextItem, "value") == ite(as[bool](value), any("true"), any("false"))
 //@ ensures [C16] result-string: ncalls(exec.executeNextItem) == 1 ==> is[string](callarg[any](exec.executeNextItem, "value"))
+//@ ensures [C16 C18] datetime-prints-as-String: is[types.DateTime](value) ==> ncalls(exec.executeNextItem) == 1 && callarg[any](exec.executeNextItem, "value") == any(as[types.DateTime](value).String())
 //@ ensures [C16] domain: value == nil || is[map[string]any](value) ==> r0 == statusFailed && ncalls(exec.executeNextItem) == 0 && (r1 == nil || errIs(r1, ErrVerbose))
 
 //@ func (*Executor).executeNumericItemMethod
+//@ alsoprops E3 C16
+//@ alsoprops E2 C16
 //@ props C16
 //@ requires node != nil
 //@ ensures [C16] int: is[int64](value) ==> ncalls(exec.executeNextItem) == 1 && callarg[any](exec.executeNextItem, "value") == any(dynret[int64](intCallback, 0, as[int64](value)))
@@ -878,6 +927,8 @@ func isUnknownSpec(a predOutcome) predOutcome {
 //@ ensures [C16] ok-range: r1 == nil ==> r0 >= -2147483648 && r0 <= 2147483647
 
 //@ func (*Executor).executeNumberMethod
+//@ alsoprops E3 C16
+//@ alsoprops E2 C16
 //@ props C16 C05
 //@ requires node != nil
 //@ ensures [C16] finite-number: ncalls(exec.executeNextItem) == 1 && !is[*ast.BinaryNode](node) ==> is[float64](callarg[any](exec.executeNextItem, "value")) && !isNaN(as[float64](callarg[any](exec.executeNextItem, "value"))) && !isInf(as[float64](callarg[any](exec.executeNextItem, "value")))
@@ -996,7 +1047,7 @@ func isUnknownSpec(a predOutcome) predOutcome {
 //@ ensures [C17] timestamp: is[*types.Timestamp](val2) ==> r1 == nil && r0 == val1.Compare(as[*types.Timestamp](val2).Time)
 //@ ensures [C17] incomparable: is[*types.Time](val2) || is[*types.TimeTZ](val2) ==> r0 == -2 && r1 == nil
 //@ ensures [C17] tz-required: is[*types.TimestampTZ](val2) && !useTZ ==> r1 != nil && errIs(r1, ErrExecution) && !errIs(r1, ErrVerbose)
-//@ ensures [C17] coherent-with-cast: is[*types.TimestampTZ](val2) && useTZ ==> r1 == nil && r0 == val1.ToTimestampTZ(ctx).Compare(as[*types.TimestampTZ](val2).Time)
+//@ ensures [C17 C12] coherent-with-cast: is[*types.TimestampTZ](val2) && useTZ ==> r1 == nil && r0 == val1.ToTimestampTZ(ctx).Compare(as[*types.TimestampTZ](val2).Time)
 
 //@ func compareTime
 //@ props C17
@@ -1004,7 +1055,7 @@ func isUnknownSpec(a predOutcome) predOutcome {
 //@ ensures [C17] same: is[*types.Time](val2) ==> r1 == nil && r0 == val1.Compare(as[*types.Time](val2).Time)
 //@ ensures [C17] incomparable: is[*types.Date](val2) || is[*types.Timestamp](val2) || is[*types.TimestampTZ](val2) ==> r0 == -2 && r1 == nil
 //@ ensures [C17] tz-required: is[*types.TimeTZ](val2) && !useTZ ==> r1 != nil && errIs(r1, ErrExecution) && !errIs(r1, ErrVerbose)
-//@ ensures [C17] coherent-with-cast: is[*types.TimeTZ](val2) && useTZ ==> r1 == nil && (r0 == 0) == (as[*types.TimeTZ](val2).Compare(val1.ToTimeTZ(ctx).Time) == 0) && (r0 < 0) == (as[*types.TimeTZ](val2).Compare(val1.ToTimeTZ(ctx).Time) > 0)
+//@ ensures [C17 C12] coherent-with-cast: is[*types.TimeTZ](val2) && useTZ ==> r1 == nil && (r0 == 0) == (as[*types.TimeTZ](val2).Compare(val1.ToTimeTZ(ctx).Time) == 0) && (r0 < 0) == (as[*types.TimeTZ](val2).Compare(val1.ToTimeTZ(ctx).Time) > 0)
 
 //@ func compareTimeTZ
 //@ props C17
@@ -1012,7 +1063,7 @@ func isUnknownSpec(a predOutcome) predOutcome {
 //@ ensures [C17] same: is[*types.TimeTZ](val2) ==> r1 == nil && r0 == val1.Compare(as[*types.TimeTZ](val2).Time)
 //@ ensures [C17] incomparable: is[*types.Date](val2) || is[*types.Timestamp](val2) || is[*types.TimestampTZ](val2) ==> r0 == -2 && r1 == nil
 //@ ensures [C17] tz-required: is[*types.Time](val2) && !useTZ ==> r1 != nil && errIs(r1, ErrExecution) && !errIs(r1, ErrVerbose)
-//@ ensures [C17] coherent-with-cast: is[*types.Time](val2) && useTZ ==> r1 == nil && r0 == val1.Compare(as[*types.Time](val2).ToTimeTZ(ctx).Time)
+//@ ensures [C17 C12] coherent-with-cast: is[*types.Time](val2) && useTZ ==> r1 == nil && r0 == val1.Compare(as[*types.Time](val2).ToTimeTZ(ctx).Time)
 
 //@ func compareTimestamp
 //@ props C17
@@ -1021,7 +1072,7 @@ func isUnknownSpec(a predOutcome) predOutcome {
 //@ ensures [C17] date: is[*types.Date](val2) ==> r1 == nil && r0 == val1.Compare(as[*types.Date](val2).Time)
 //@ ensures [C17] incomparable: is[*types.Time](val2) || is[*types.TimeTZ](val2) ==> r0 == -2 && r1 == nil
 //@ ensures [C17] tz-required: is[*types.TimestampTZ](val2) && !useTZ ==> r1 != nil && errIs(r1, ErrExecution) && !errIs(r1, ErrVerbose)
-//@ ensures [C17] coherent-with-cast: is[*types.TimestampTZ](val2) && useTZ ==> r1 == nil && r0 == val1.ToTimestampTZ(ctx).Compare(as[*types.TimestampTZ](val2).Time)
+//@ ensures [C17 C12] coherent-with-cast: is[*types.TimestampTZ](val2) && useTZ ==> r1 == nil && r0 == val1.ToTimestampTZ(ctx).Compare(as[*types.TimestampTZ](val2).Time)
 
 //@ func compareTimestampTZ
 //@ props C17
@@ -1029,8 +1080,8 @@ func isUnknownSpec(a predOutcome) predOutcome {
 //@ ensures [C17] same: is[*types.TimestampTZ](val2) ==> r1 == nil && r0 == val1.Compare(as[*types.TimestampTZ](val2).Time)
 //@ ensures [C17] incomparable: is[*types.Time](val2) || is[*types.TimeTZ](val2) ==> r0 == -2 && r1 == nil
 //@ ensures [C17] tz-required: (is[*types.Date](val2) || is[*types.Timestamp](val2)) && !useTZ ==> r1 != nil && errIs(r1, ErrExecution) && !errIs(r1, ErrVerbose)
-//@ ensures [C17] coherent-with-cast-date: is[*types.Date](val2) && useTZ ==> r1 == nil && r0 == val1.Compare(as[*types.Date](val2).ToTimestampTZ(ctx).Time)
-//@ ensures [C17] coherent-with-cast-timestamp: is[*types.Timestamp](val2) && useTZ ==> r1 == nil && r0 == val1.Compare(as[*types.Timestamp](val2).ToTimestampTZ(ctx).Time)
+//@ ensures [C17 C12] coherent-with-cast-date: is[*types.Date](val2) && useTZ ==> r1 == nil && r0 == val1.Compare(as[*types.Date](val2).ToTimestampTZ(ctx).Time)
+//@ ensures [C17 C12] coherent-with-cast-timestamp: is[*types.Timestamp](val2) && useTZ ==> r1 == nil && r0 == val1.Compare(as[*types.Timestamp](val2).ToTimestampTZ(ctx).Time)
 
 //@ func (*Executor).parseDateTimeFormat
 //@ props C17 C08
@@ -1044,6 +1095,8 @@ func isUnknownSpec(a predOutcome) predOutcome {
 //@ ensures [C17] nonnil: r1 == nil ==> r0 != nil
 
 //@ func (*Executor).executeDateTimeMethod
+//@ alsoprops E3 C17 C10
+//@ alsoprops E6-error-propagated C17
 //@ props C17 C08
 //@ requires node.Operator() >= ast.UnaryDateTime
 //@ ensures [C17] non-string: !is[string](value) ==> r0 == statusFailed && (r1 == nil || errIs(r1, ErrVerbose)) && ncalls(exec.executeNextItem) == 0
